@@ -83,3 +83,39 @@ if __name__ == "__main__":
     for k in HALVES:
         print(k, len(overlay_cases(k, "x")))
         print(json.dumps(overlay_cases(k, "x")[0].schema))
+
+
+SIBLING = {
+    # kind -> (leaf with tight limits, leaf with wide limits, [(value, ok for tight, ok for wide)])
+    "items": ({"type": "array", "items": {"type": "string"}, "minItems": 1, "maxItems": 2}, {"type": "array", "items": {"type": "string"}, "minItems": 1, "maxItems": 5},
+              [(["a"], True, True), (["a", "b", "c"], False, True), (["a", "b", "c", "d", "e", "f"], False, False), ([], False, False)]),
+    "string": ({"type": "string", "minLength": 1, "maxLength": 2}, {"type": "string", "minLength": 1, "maxLength": 5}, [("a", True, True), ("abc", False, True), ("abcdef", False, False), ("", False, False)]),
+    "bound": ({"type": "integer", "minimum": 1, "maximum": 2}, {"type": "integer", "minimum": 1, "maximum": 5}, [(1, True, True), (3, False, True), (6, False, False), (0, False, False)]),
+}
+
+
+def sibling_group_cases(kind, prefix):
+    """two allOf groups in one schema whose FIRST member is the same definition and whose second members declare a property the definition does not
+    have, with different limits: each group enforces its own limits, and the definition on its own (which does not know the property) accepts any
+    value there.  Judged by the expectation carried by each document."""
+    bad_cls, ok_cls = CLS[kind]
+    tight, wide, vals = SIBLING[kind]
+    out = []
+    n = 0
+    for names in (("small", "wide", "plain"), ("z_small", "a_wide", "m_plain")):
+        for first in ("ref", "inline"):
+            base = {"type": "object", "properties": {"id": {"type": "string"}}}
+            m0 = {"$ref": "#/$defs/Base"} if first == "ref" else copy.deepcopy(base)
+            sm, wd, pl = names
+            root = {"type": "object", "$defs": {"Base": base},
+                    "properties": {sm: {"allOf": [copy.deepcopy(m0), {"type": "object", "properties": {"p": copy.deepcopy(tight)}}]},
+                                   wd: {"allOf": [copy.deepcopy(m0), {"type": "object", "properties": {"p": copy.deepcopy(wide)}}]},
+                                   pl: {"$ref": "#/$defs/Base"}}}
+            docs = []
+            for v, okt, okw in vals:
+                docs.append({"doc": {sm: {"id": "i", "p": v}}, "cls": ok_cls if okt else bad_cls, "path": (sm, "p"), "expect": "ACC" if okt else "REJ"})
+                docs.append({"doc": {wd: {"id": "i", "p": v}}, "cls": ok_cls if okw else bad_cls, "path": (wd, "p"), "expect": "ACC" if okw else "REJ"})
+                docs.append({"doc": {pl: {"id": "i", "p": v}}, "cls": "valid", "path": (pl, "p"), "expect": "ACC"})
+            out.append(Case("%ssg%d" % (prefix, n), root, docs, fam="sibling-groups/%s/%s-first" % (kind, first), no_model=True))
+            n += 1
+    return out
